@@ -123,6 +123,7 @@ class ModuleInfo:
         self.funcs = {}
         self.assigns = {}
         self.imports = {}       # local name -> ('mod', dotted) | ('from', dotted, attr)
+        self.star_imports = []
         pkg = os.path.dirname(relpath).replace('/', '.')
         self.package = pkg
         self._scan(self.tree.body)
@@ -148,7 +149,10 @@ class ModuleInfo:
                         parts = parts[:-(st.level - 1)]
                     base = '.'.join(parts + ([st.module] if st.module else []))
                 for a in st.names:
-                    self.imports[a.asname or a.name] = ('from', base, a.name)
+                    if a.name == '*':
+                        self.star_imports.append(base)
+                    else:
+                        self.imports[a.asname or a.name] = ('from', base, a.name)
             elif isinstance(st, ast.Try):
                 self._scan(st.body)
                 for h in st.handlers:
@@ -195,6 +199,13 @@ class ModuleInfo:
             return r
         if name in self.assigns:
             return ('assign', self, self.assigns[name])
+        if _depth <= 10:
+            for dotted in self.star_imports:
+                m = repo.module_by_dotted(dotted)
+                if m is not None:
+                    r = m.lookup(repo, name, _depth + 1)
+                    if r is not None:
+                        return r
         return None
 
 
